@@ -18,6 +18,7 @@ Supported subset (anything else raises Unsupported and the function is skipped):
 from __future__ import annotations
 
 import ast
+import copy
 from pathlib import Path
 
 from . import core
@@ -996,6 +997,11 @@ class Tr:
             def falls_(b):
                 return not b or not isinstance(b[-1], (ast.Return, ast.Raise, ast.Continue, ast.Break))
             return self.block(list(s.body) + (list(rest) if falls_(s.body) else []), ind)
+        if (self.spec.get("try_calls") and isinstance(s, ast.Try) and not s.orelse and not s.finalbody and s.body and isinstance(s.body[0], ast.Expr)
+                and isinstance(s.body[0].value, ast.Call)):
+            # `try: f(args)` whose value is not kept: the same as binding it to a name nobody reads
+            s = copy.copy(s)
+            s.body = [ast.copy_location(ast.Assign(targets=[ast.Name(id="_unused", ctx=ast.Store())], value=s.body[0].value), s.body[0])] + list(s.body[1:])
         if (self.spec.get("try_calls") and isinstance(s, ast.Try) and not s.orelse and not s.finalbody and s.body and isinstance(s.body[0], ast.Assign)
                 and len(s.body[0].targets) == 1 and isinstance(s.body[0].value, ast.Call)
                 and (isinstance(s.body[0].targets[0], ast.Name) or (isinstance(s.body[0].targets[0], ast.Tuple)
@@ -1859,6 +1865,13 @@ SPECS = [
          header="def pauseWriting (s : Srv.Flow.FSt) : Srv.Flow.FSt × Unit :=", state_type="Srv.Flow.FSt",
          fields={"_unsent": "unsent", "_write_paused": "paused", "_response_sent": "started"},
          types={"self._write_paused": "bool"}),
+    dict(name="isSafePath", file="server/handler.py", cls="StaticFileHandler", func="_is_safe_path",
+         header="def isSafePath (root : Fs.Path) (file_path : Fs.Path) : Bool :=",
+         rename={"self.document_root": "root"}, types={"file_path": "path", "self.document_root": "path"}, paths=True,
+         lean_types={"path": "Fs.Path", "bool": "Bool"}, pytypes={"Path": ("path", "Fs.Path"), "bool": ("bool", "Bool")},
+         # assumed about Python and nothing else: PurePath.relative_to(other) raises ValueError exactly when `other` is not a prefix of the
+         # path, component by component (`Fs.relativeToE`)
+         try_calls={"relative_to": dict(fn="Fs.relativeToE", recv=True, args=[0], nargs=1, handlers=[(("ValueError",), ".error _")], rtype="path")}),
     dict(name="staticHandle", file="server/handler.py", cls="StaticFileHandler", func="handle", mode="except", hoist_tests=True,
          header="def staticHandle (os : Fs.OS) (cfg : Fs.SCfg) (comps : Fs.Path) (trailing : Bool) : Except Unit Fs.SResp :=",
          err_type="Unit", paths=True, stat_size="os.size", for_loops=("(os : Fs.OS) (cfg : Fs.SCfg) ", "os cfg", "name", "Fs.Name"),
@@ -1928,7 +1941,7 @@ PRELUDE = {
     "dataReceived": (["NauyacaVerif.Srv.PState"], []),
     "handleMwResult": (["NauyacaVerif.Srv.PState"], []), "sendMwRejection": (["NauyacaVerif.Srv.PState"], []), "handleHandlerResult": (["NauyacaVerif.Srv.PState"], []), "handleUploadResult": (["NauyacaVerif.Srv.PState"], []),
     "handleGeminiRequest": (["NauyacaVerif.Srv.PState"], []), "processTitanUpload": (["NauyacaVerif.Srv.PState"], []),
-    "staticHandle": (["NauyacaVerif.Fs.StaticPy"], []),
+    "staticHandle": (["NauyacaVerif.Fs.StaticPy"], []), "isSafePath": (["NauyacaVerif.Fs.StaticPy"], []),
     "pumpResponse": (["NauyacaVerif.Srv.FlowPy"], []), "resumeWriting": (["NauyacaVerif.Srv.FlowPy", "NauyacaVerif.Gen.Fn.PumpResponse"], []),
     "pauseWriting": (["NauyacaVerif.Srv.FlowPy"], []), "sendResponse": (["NauyacaVerif.Srv.FlowPy", "NauyacaVerif.Gen.Fn.PumpResponse"], []), "connectionLost": (["NauyacaVerif.Srv.FlowPy"], []),
     "clientDataReceived": (["NauyacaVerif.Cl.PyClient"], []), "titanClientDataReceived": (["NauyacaVerif.Cl.PyClient"], []),
